@@ -257,6 +257,21 @@ def is_call_to(e, *suffixes):
     return False
 
 
+def diverges(e):
+    """expression never completes normally (panic!/todo!/unreachable!/return-less diverging call)"""
+    if not isinstance(e, dict):
+        return False
+    if e.get("ty") == "!":
+        return True
+    if e.get("k") == "Block":
+        if e.get("expr") is not None:
+            return diverges(e["expr"])
+        if e.get("stmts"):
+            last = e["stmts"][-1]
+            return diverges(last.get("e") or {})
+    return False
+
+
 def lit_int(lit):
     """'Int(Pu128(7), Unsuffixed)' -> 7 ; None if not an integer literal."""
     import re
